@@ -16,6 +16,8 @@
           -> `BG mode twod rank para nn <6*nn stored background logs> ncell {cell n0 n1 n2 n3}`
      setcell <node> <cell>   ref_interp_cell(node) = cell            -> ok
      setpart <node> <part>   ref_interp_part(node) = part            -> ok
+     setpara <0|1>           ref_mpi_n = 2|1 on the grid's and the background's REF_MPI (no communication happens in
+                             interp/move/between/improve; `pass` is refused meanwhile)  -> `PA <0|1>`
      interp <node>           ref_metric_interpolate_node             -> C record
      move <node> <x y z hex> set the position, then ref_metric_interpolate_node  -> C record
      between <n0> <n1> <w hex> [<x y z hex>]   new vertex by ref_node_interpolate_edge (weight w), position optionally
@@ -24,7 +26,8 @@
      pass <letters>          m ref_smooth_pass, a ref_adapt_pass, s ref_split_pass, c ref_collapse_pass,
                              w ref_swap_tri_pass (2-D), y ref_metric_synchronize, p ref_grid_pack
                              -> I / B / C records as they happen, then `done <status> ...`
-     dump                    -> `N nn {node x y z l0..l5 cell part}` (for the oracle)
+     dump                    -> `N nn {node x y z m0..m5 l0..l5 cell part}` (for the oracle)
+   every op ends with a terminator line `. <op>`; malformed ops print `bad-op` before it.
 
    records (fed to `refdrv smoothinterp`); STATE := x y z cell part b0 b1 b2 b3 m0..m5 l0..l5 (21 words):
      C <node> <hasinterp> <cont> <status> STATE(pre) STATE(post) <nev> EV*
@@ -319,7 +322,16 @@ static void my_op(const char *phase, const char *kind, void *object, int n, cons
 
 /* ---- session grid ------------------------------------------------------------------------------------------ */
 static void free_grid(void) {
-  if (NULL != G) ref_grid_free(G);
+  if (NULL != G) {
+    REF_INTERP ri = ref_grid_interp(G);
+    ref_mpi_n(ref_grid_mpi(G)) = 1;
+    ref_mpi_n(ref_node_mpi(ref_grid_node(G))) = 1;
+    if (NULL != ri) {
+      ref_mpi_n(ref_interp_mpi(ri)) = 1;
+      ref_mpi_n(ref_grid_mpi(ref_interp_from_grid(ri))) = 1;
+    }
+    ref_grid_free(G);
+  }
   G = NULL;
 }
 
@@ -476,6 +488,23 @@ static void do_op(void) {
       ref_interp_part(ri, h_i(h_w[1])) = (REF_INT)h_i(h_w[2]);
     }
     fputs("ok\n", out);
+  } else if (0 == strcmp(op, "setpara")) {
+    /* pretend to be one rank of a parallel run for the calls that do not communicate (interp, move, between, improve):
+       ref_mpi_para() is `n > 1`; it switches the sequential fall-back of ref_interp_locate_node / _between off */
+    REF_INTERP ri = ref_grid_interp(G);
+    int n;
+    if (2 != h_nw || !is_nat(h_w[1]) || h_i(h_w[1]) > 1) {
+      fputs("bad-op\n", out);
+      return;
+    }
+    n = (1 == h_i(h_w[1])) ? 2 : 1;
+    ref_mpi_n(ref_grid_mpi(G)) = n;
+    ref_mpi_n(ref_node_mpi(ref_grid_node(G))) = n;
+    if (NULL != ri) {
+      ref_mpi_n(ref_interp_mpi(ri)) = n;
+      ref_mpi_n(ref_grid_mpi(ref_interp_from_grid(ri))) = n;
+    }
+    fprintf(out, "PA %d\n", n > 1 ? 1 : 0);
   } else if (0 == strcmp(op, "interp") || 0 == strcmp(op, "move")) {
     REF_INT node;
     int i;
@@ -555,7 +584,7 @@ static void do_op(void) {
     REF_STATUS s = REF_SUCCESS;
     REF_BOOL all_done;
     const char *p;
-    if (2 != h_nw || strlen(h_w[1]) > 32) {
+    if (2 != h_nw || strlen(h_w[1]) > 32 || ref_mpi_para(ref_grid_mpi(G))) {
       fputs("bad-op\n", out);
       return;
     }
